@@ -689,6 +689,12 @@ func (env *Env) callExpr(x *CCall) EV {
 	case "off":
 		need(1)
 		return EV{T: "(hv_offs (hv_org " + arg(0).T + "))", Typ: intT}
+	case "org":
+		need(1)
+		return EV{T: "(hv_org " + arg(0).T + ")", Sort: sInt}
+	case "adv":
+		need(2)
+		return EV{T: advOrg(arg(0).T, arg(1).T), Sort: sInt}
 	case "tag":
 		need(1)
 		return EV{T: "(hv_tag " + arg(0).T + ")", Typ: intT}
@@ -934,6 +940,12 @@ func (env *Env) locsOf(l CExpr) []assignLoc {
 		return []assignLoc{{hv: has, addr: v.T}, {hv: val, addr: v.T}}
 	}
 	v := env.eval(l)
+	if !v.Addr && v.Typ != nil {
+		// a pointer names its pointee
+		if pt, ok := v.Typ.Underlying().(*types.Pointer); ok {
+			v = EV{T: v.T, Typ: pt.Elem(), Addr: true}
+		}
+	}
 	if !v.Addr {
 		env.errf("assigns location %s is not addressable", l)
 	}
